@@ -140,7 +140,7 @@ def run(ctx):
             key = "%s|assert-%s" % (name, hashlib.sha1(repr(strip_site(cond)).encode()).hexdigest()[:8])
             ctx.check(not srcs, "R17.1", key,
                       "a precondition assert must test only the call's arguments, the configuration or user-callback results - never internal cache state, which no valid argument can control",
-                      f.where(b), "condition %s reads %s" % (fmt(cond)[:140], "; ".join(sorted({fmt(s)[:80] for s in srcs}))) if srcs else fmt(cond)[:140])
+                      f.where(b), "condition %s reads %s (no positive lower bound established: a bound is not taken through a plain `+`/`-` that may overflow on a value without an upper bound - a recorded weight can be i64::MAX -, it is through saturating_add / max)" % (fmt(cond)[:140], "; ".join(sorted({fmt(s)[:80] for s in srcs}))) if srcs else fmt(cond)[:140])
     ctx.floor("R17.5", "assert!-style preconditions analysed", n_assert, 12)
 
     # ---- R17.11 builder preconditions (sibling agreement): every setter of the configuration builder that stores a plain
@@ -530,7 +530,15 @@ def lower_bound(F, fn, e, depth=0):
         return lower_bound(F, fn, e[1], depth + 1)
     if k == "binop" and e[1] == "Add":
         a, b = lower_bound(F, fn, e[2], depth + 1), lower_bound(F, fn, e[3], depth + 1)
+        # a bound through `+` holds only if the sum cannot overflow (it wraps in a release build and panics in a debug build):
+        # both operands need a constant upper bound.  A recorded weight has none below i64::MAX - `recorded + 24` is *not*
+        # bounded below by 25; `recorded.saturating_add(24)` is.
+        if upper_const(F, fn, e[2]) is None or upper_const(F, fn, e[3]) is None:
+            return None
         return a + b if a is not None and b is not None else None
+    if k == "call" and e[1].endswith("::saturating_add") and len(e[2]) == 2:
+        a, b = lower_bound(F, fn, e[2][0], depth + 1), lower_bound(F, fn, e[2][1], depth + 1)
+        return a + b if a is not None and b is not None and b >= 0 and a >= 0 else None
     if k == "binop" and e[1] == "Sub":
         a, b = lower_bound(F, fn, e[2], depth + 1), e[3]
         if a is not None and b[0] == "const" and isinstance(b[1], int):
